@@ -209,12 +209,31 @@ class LocRecorder:
                 return orig_split(self_, midway)
 
             _bi._Interval._split_exact = _split_exact
+        # ... and inside the value computation: the walk to the nearest cached ancestor draws noise through the
+        # module-level _randn for every node it computes; its frame depth shows whether that walk recurses
+        self._orig_randn = getattr(_bi, "_randn", None)
+        if self._orig_randn is not None:
+            orig_randn = self._orig_randn
+
+            def _randn(*a, **k):
+                d = 0
+                f = sys._getframe()
+                while f is not None:
+                    d += 1
+                    f = f.f_back
+                if d > rec.max_depth:
+                    rec.max_depth = d
+                return orig_randn(*a, **k)
+
+            _bi._randn = _randn
         return self
 
     def __exit__(self, *a):
         _bi._Interval._loc = self._orig
         if self._orig_split is not None:
             _bi._Interval._split_exact = self._orig_split
+        if self._orig_randn is not None:
+            _bi._randn = self._orig_randn
 
     def reset(self):
         self.calls = []
